@@ -183,12 +183,13 @@ func (f *SynthFetcher) FetchAccount(_ context.Context, path string) (e2wtypes.Wa
 }
 
 func (f *SynthFetcher) FetchAccountByKey(_ context.Context, pubKey []byte) (e2wtypes.Wallet, e2wtypes.Account, error) {
+	// Like the in-memory fetcher of Dirk, the lookup key is the first 48 bytes (zero-padded).
 	var k [48]byte
 	copy(k[:], pubKey)
 	f.mu.RLock()
 	defer f.mu.RUnlock()
 	a, ok := f.byKey[k]
-	if !ok || len(pubKey) != 48 {
+	if !ok {
 		return nil, nil, errors.New("public key not known")
 	}
 	return a.wallet, a, nil
